@@ -66,9 +66,15 @@ DriftReason(e) ==
   ELSE "ok"
 
 TInit == /\ l = 1 /\ nodes = {} /\ root = NotSet /\ marks = NoMarks /\ lastFrom = NoPos /\ depth = 0
+\* A key press is recorded with the class of the command that Keys.tla's table names for it (e.viaKey = 1).  Which command a key means
+\* is not part of C11 - a maintainer may re-map keys -, so the clauses that depend on the class are refinement level for key presses;
+\* "on a node of the expression, retrievable" stays property level whatever the key means.
+ClassFree == {"ok", "position-not-in-expression", "navigation-mathml-not-retrievable"}
 TNext ==
   /\ l <= Len(Rec)
-  /\ LET e == Rec[l] r == CmdReason(e) d == DriftReason(e) IN
+  /\ LET e == Rec[l] r0 == CmdReason(e)
+         r == IF e.viaKey = 1 /\ r0 \notin ClassFree THEN "ok" ELSE r0
+         d == IF e.viaKey = 1 /\ r0 \notin ClassFree THEN "key-press-" \o r0 ELSE DriftReason(e) IN
        /\ (r # "ok" => PrintT(<<"REJECT", l, r>>))
        /\ (r = "ok" /\ d # "ok" => PrintT(<<"DRIFT", l, d>>))
        \* re-bind the state from the log
@@ -79,7 +85,7 @@ TNext ==
           ELSE /\ UNCHANGED <<nodes, root>>
                \* a failed set_mathml keeps the old expression but has already reset navigation: the marker clause is
                \* only asserted between two set_mathml calls
-               \* (a key press may set any marker: the driver does not interpret key codes, so markers are unknown afterwards)
+               \* (a key press whose meaning the table does not give - cls "Key" - may set any marker: markers are unknown afterwards)
                /\ marks' = IF e.k = "set" \/ (e.k = "cmd" /\ e.cls = "Key") THEN NoMarks
                            ELSE IF e.k = "cmd" /\ e.cls = "SetPlacemarker" /\ e.res = "ok"
                            THEN [marks EXCEPT ![e.idx] = e.after]
